@@ -162,10 +162,12 @@ func c01One(c *vlib.Ctx, r *vlib.Rand, t gopacket.LayerType, b []byte, how strin
 	}); pi != nil {
 		mustErr, witness = true, "decoding the same input with recovery switched off panics ("+pi.Func+")"
 	}
+	var dlType reflect.Type // set when the second witness is the one in use
 	if dl := newDecodingLayer(t); dl != nil && !mustErr {
 		var err error
 		if pi := vlib.Guard(func() { err = dl.DecodeFromBytes(b, gopacket.NilDecodeFeedback) }); pi == nil && err != nil {
 			mustErr, witness = true, "DecodeFromBytes of the first layer returns an error: "+err.Error()
+			dlType = reflect.TypeOf(dl)
 		}
 	}
 	renderSets := map[int]bool{r.Intn(16): true, r.Intn(16): true, 0: true}
@@ -194,6 +196,13 @@ func c01One(c *vlib.Ctx, r *vlib.Rand, t gopacket.LayerType, b []byte, how strin
 		if key != "" {
 			c.Violation(key, desc, det(o))
 			continue
+		}
+		if mustErr && !hasErr && dlType != nil {
+			// several struct types can share one layer type (OSPF v2/v3, ...): the witness only counts when the packet's
+			// first layer is the very type whose DecodeFromBytes was asked
+			if ls := p.Layers(); len(ls) == 0 || reflect.TypeOf(ls[0]) != dlType {
+				continue
+			}
 		}
 		if mustErr && !hasErr && !(len(b) == 0 && o.Lazy) {
 			c.Violation("undecodable-input-without-error-layer:"+t.String(), "the packet reports no error although "+witness, det(o))
